@@ -32,22 +32,26 @@ func newFakeBackend(mode string) *fakeBackend {
 	return &fakeBackend{v2: mode == "zstd", inner: fp, plans: map[string]*plan{}, counts: map[string]int{}, st: newStallTracker()}
 }
 
-func (b *fakeBackend) kindName() string                { return "fake" }
-func (b *fakeBackend) proxy() cache.Proxy              { return b }
-func (b *fakeBackend) newPeerProxy() cache.Proxy       { return b }
-func (b *fakeBackend) sizeAware(cache.EntryKind) bool  { return true }
-func (b *fakeBackend) openConns() int                  { return b.inner.OpenReaders() }
-func (b *fakeBackend) connSlack() int                  { return 0 }
-func (b *fakeBackend) stalls() *stallTracker           { return b.st }
-func (b *fakeBackend) closeIdle()                      {}
-func (b *fakeBackend) uploaders() int                  { return 0 }
-func (b *fakeBackend) close()                          { b.st.releaseAll() }
-func (b *fakeBackend) setUploadPlan(string, *upPlan)   {}
-func (b *fakeBackend) reqCount(hash string) int        { b.mu.Lock(); defer b.mu.Unlock(); return b.counts[hash] }
-func (b *fakeBackend) setPlan(o *object, p *plan)      { b.mu.Lock(); b.plans[o.hash] = p; b.mu.Unlock() }
-func (b *fakeBackend) clearPlan(hash string)           { b.mu.Lock(); delete(b.plans, hash); b.mu.Unlock() }
-func (b *fakeBackend) put(o *object)                   { b.inner.SetRaw(o.kind, o.hash, o.stored, o.size()) }
-func (b *fakeBackend) remove(o *object)                { b.inner.Delete(o.kind, o.hash) }
+func (b *fakeBackend) kindName() string               { return "fake" }
+func (b *fakeBackend) proxy() cache.Proxy             { return b }
+func (b *fakeBackend) newPeerProxy() cache.Proxy      { return b }
+func (b *fakeBackend) sizeAware(cache.EntryKind) bool { return true }
+func (b *fakeBackend) openConns() int                 { return b.inner.OpenReaders() }
+func (b *fakeBackend) connSlack() int                 { return 0 }
+func (b *fakeBackend) stalls() *stallTracker          { return b.st }
+func (b *fakeBackend) closeIdle()                     {}
+func (b *fakeBackend) uploaders() int                 { return 0 }
+func (b *fakeBackend) close()                         { b.st.releaseAll() }
+func (b *fakeBackend) setUploadPlan(string, *upPlan)  {}
+func (b *fakeBackend) reqCount(hash string) int {
+	b.mu.Lock()
+	defer b.mu.Unlock()
+	return b.counts[hash]
+}
+func (b *fakeBackend) setPlan(o *object, p *plan) { b.mu.Lock(); b.plans[o.hash] = p; b.mu.Unlock() }
+func (b *fakeBackend) clearPlan(hash string)      { b.mu.Lock(); delete(b.plans, hash); b.mu.Unlock() }
+func (b *fakeBackend) put(o *object)              { b.inner.SetRaw(o.kind, o.hash, o.stored, o.size()) }
+func (b *fakeBackend) remove(o *object)           { b.inner.Delete(o.kind, o.hash) }
 
 func (b *fakeBackend) holds(o *object) ([]byte, bool) {
 	if !b.inner.Has(o.kind, o.hash) {
